@@ -37,14 +37,52 @@ def _make():
     return _CLS
 
 
+_FACTORY_CLASSES = []
+_COUNT = [0]
+
+
+def _factory(inner):
+    """a parametrised custom type: one class per wrapped schema, produced by a class factory (all
+    of them are called `Fwd`), the wrapped schema being the *default* of the class's own Props type"""
+    from niltype import Nil
+    from d42.custom_type import CustomSchema, Props
+
+    class FwdDefaultProps(Props):
+        @property
+        def inner(self):
+            return self.get("inner", inner)
+
+    class Fwd(CustomSchema[FwdDefaultProps]):
+        def __represent__(self, visitor, *, indent=0, **kwargs):
+            return self.props.inner.__accept__(visitor, indent=indent, **kwargs)
+
+        def __generate__(self, visitor, **kwargs):
+            return self.props.inner.__accept__(visitor, **kwargs)
+
+        def __validate__(self, visitor, *, value=Nil, path=Nil, **kwargs):
+            return self.props.inner.__accept__(visitor, value=value, path=path, **kwargs)
+
+        def __substitute__(self, visitor, *, value=Nil, **kwargs):
+            res = self.props.inner.__accept__(visitor, value=value, **kwargs)
+            return self.__class__(self.props.update(inner=res))
+
+    _FACTORY_CLASSES.append(Fwd)
+    return Fwd
+
+
 def wrap(inner):
+    """two ways of writing the forwarding type, taken in turn: one registered class whose props
+    hold the wrapped schema, or a class made by a factory for this very schema"""
     import d42
     _make()
-    return d42.schema.verif_fwd(inner)
+    _COUNT[0] += 1
+    if _COUNT[0] % 2:
+        return d42.schema.verif_fwd(inner)
+    return _factory(inner)()
 
 
 def unwrap(real):
     cls = _make()
-    if isinstance(real, cls):
+    if isinstance(real, cls) or isinstance(real, tuple(_FACTORY_CLASSES)):
         return real.props.inner
     return None
